@@ -30,6 +30,8 @@ struct Script {
     connects: Vec<String>,
     queues: HashMap<String, std::collections::VecDeque<Vec<Vec<u8>>>>,
     faults: HashMap<(usize, usize), Fault>,
+    /// virtual seconds the terminal waits before it sends each item (`gap=N`; slow but talking terminal)
+    gap: u64,
 }
 
 struct Shared {
@@ -105,8 +107,14 @@ async fn serve(mut s: DuplexStream, k: usize, sh: Arc<Mutex<Shared>>) {
                 break;
             }
             let Some(item) = pending.pop_front() else { break };
-            let fault = sh.lock().unwrap().script.faults.get(&(k, sent)).cloned();
+            let (fault, gap) = {
+                let g = sh.lock().unwrap();
+                (g.script.faults.get(&(k, sent)).cloned(), g.script.gap)
+            };
             sent += 1;
+            if gap > 0 {
+                tokio::time::sleep(std::time::Duration::from_secs(gap)).await;
+            }
             match fault {
                 None => {
                     let _ = s.write_all(&item).await;
@@ -139,6 +147,8 @@ fn parse_script(s: &str) -> Option<Script> {
             sc.serial = hex_dec(v)?;
         } else if let Some(v) = tok.strip_prefix("tid=") {
             sc.tid = hex_dec(v)?;
+        } else if let Some(v) = tok.strip_prefix("gap=") {
+            sc.gap = v.parse().ok()?;
         } else if let Some(v) = tok.strip_prefix("conn=") {
             sc.connects = v.split(',').map(|x| x.to_string()).collect();
         } else if let Some(v) = tok.strip_prefix("r:") {
